@@ -207,3 +207,104 @@ def _chain_info(top, param):
             ends_raise = True
         break
     return lits, ends_raise
+
+
+# ------------------------------------------------------------- full-span sweep
+def rule_full_span(ctx):
+    r = RuleResult(
+        "full-span",
+        "TensorNetwork1DFlat.compress truncates *every* bond: in each branch on `form` the truncating sweeps "
+        "(left_compress / right_compress receiving the compress options) either run over the whole chain (no "
+        "start/stop) or come as a right_compress(stop=x) + left_compress(stop=x) pair meeting at the same site; a "
+        "single partial truncating sweep leaves the bonds on the other side at their uncompressed size",
+    )
+    f = ctx.prog.func("quimb.tensor.tn1d.core", "TensorNetwork1DFlat.compress")
+    where = f"{f.module.relpath}:{f.lineno}"
+
+    def arms(stmts):
+        """leaf statement lists (one per path through nested if/elif/else)"""
+        out = []
+        ifs = [s for s in stmts if isinstance(s, ast.If)]
+        plain = [s for s in stmts if not isinstance(s, ast.If)]
+        if not ifs:
+            return [plain]
+        for i in ifs:
+            for a in arms(i.body) + (arms(i.orelse) if i.orelse else [[]]):
+                out.append(plain + a)
+        return out
+
+    n = 0
+    for arm in arms(f.node.body):
+        sweeps = []
+        for s in arm:
+            for c in ast.walk(s):
+                if isinstance(c, ast.Call) and isinstance(c.func, ast.Attribute) and c.func.attr in ("left_compress", "right_compress") and any(k.arg is None for k in c.keywords):
+                    sweeps.append(c)
+        if not sweeps:
+            continue
+        n += 1
+        full = [c for c in sweeps if not any(k.arg in ("start", "stop") for k in c.keywords)]
+        label = "; ".join(src_of(c)[:45] for c in sweeps)
+        if full:
+            r.ok(f"compress[{label}]", sample={"branch sweeps": label, "coverage": "whole chain"})
+            continue
+        stops = {}
+        for c in sweeps:
+            kw = {k.arg: src_of(k.value) for k in c.keywords if k.arg}
+            stops.setdefault(c.func.attr, set()).add(kw.get("stop"))
+        if stops.get("left_compress") and stops.get("right_compress") and stops["left_compress"] == stops["right_compress"] and None not in stops["left_compress"]:
+            r.ok(f"compress[{label}]", sample={"branch sweeps": label, "coverage": "two partial sweeps meeting at the same site"})
+        else:
+            r.bad(Finding("full-span", "TensorNetwork1DFlat.compress",
+                          f"a branch truncates only part of the chain ({label}): bonds outside that range keep their uncompressed size, above max_bond",
+                          where=where, operand=label[:60]))
+    r.floor(n, 3, "branches with truncating sweeps")
+    return r
+
+
+# --------------------------------------------------------- dense-linop-agree
+def rule_dense_linop_agree(ctx):
+    r = RuleResult(
+        "dense-linop-agree",
+        "DMRG builds the effective operators either densely (to_dense(rows, cols)) or matrix-free "
+        "(TNLinearOperator(left_inds=rows, right_inds=cols)): inside one function both forms must use the same "
+        "row and column index lists, otherwise the matrix-free path solves for the transposed operator (which "
+        "only differs for complex Hermitian Hamiltonians)",
+    )
+    m = ctx.prog.module("quimb.tensor.tn1d.dmrg")
+    n = 0
+    for f in m.all_functions:
+        if isinstance(f.node, ast.Lambda) or f.parent is not None:
+            continue
+        dense = []
+        linop = []
+        dicts = {}
+        for x in ast.walk(f.node):
+            if isinstance(x, ast.Assign) and isinstance(x.targets[0], ast.Name) and isinstance(x.value, ast.Dict):
+                dicts[x.targets[0].id] = {const_value(k, None): src_of(v) for k, v in zip(x.value.keys, x.value.values)}
+        for c in ast.walk(f.node):
+            if isinstance(c, ast.Call) and isinstance(c.func, ast.Attribute) and c.func.attr == "to_dense" and len(c.args) == 2:
+                dense.append((src_of(c.args[0]), src_of(c.args[1]), c.lineno))
+            if isinstance(c, ast.Call) and dotted(c.func) == "TNLinearOperator":
+                kw = {k.arg: src_of(k.value) for k in c.keywords if k.arg}
+                for k in c.keywords:
+                    if k.arg is None and src_of(k.value) in dicts:
+                        kw.update(dicts[src_of(k.value)])
+                if len(c.args) >= 3:
+                    kw.setdefault("left_inds", src_of(c.args[1]))
+                    kw.setdefault("right_inds", src_of(c.args[2]))
+                if "left_inds" in kw and "right_inds" in kw:
+                    linop.append((kw["left_inds"], kw["right_inds"], c.lineno))
+        if not dense or not linop:
+            continue
+        n += 1
+        pairs = {(a, b) for a, b, _ in dense} | {(a, b) for a, b, _ in linop}
+        if len(pairs) == 1:
+            r.ok(f.qualname, sample={"function": f.qualname, "rows, cols": list(pairs)[0], "dense sites": len(dense), "matrix-free sites": len(linop)})
+        else:
+            d0, l0 = dense[0], next((x for x in linop if (x[0], x[1]) != (dense[0][0], dense[0][1])), linop[0])
+            r.bad(Finding("dense-linop-agree", f.qualname,
+                          f"dense form uses (rows, cols) = ({d0[0]}, {d0[1]}) (line {d0[2]}) but the matrix-free form uses ({l0[0]}, {l0[1]}) (line {l0[2]})",
+                          where=f"{m.relpath}:{f.lineno}"))
+    r.floor(n, 1, "functions building both dense and matrix-free effective operators")
+    return r
